@@ -1238,6 +1238,24 @@ func runL2History(g *gen, prof l2profile, nops int, stats map[string]int) (strin
 		do(&sop{kind: "sel", c: 1})
 		stats["script_same_value_reassigned"]++
 	}
+	if prof.changes && !prof.roReader && g.r.Intn(3) == 0 {
+		// a row deleted in version A and inserted again with every non-key column NULL before
+		// version B: it is visible in B and absent from A, so changes(A, B) returns it
+		k := sval{tag: 'I', i: 555}
+		do(&sop{kind: "wt", c: 0, t: l2BaseSec + 1})
+		do(&sop{kind: "ins", c: 0, key: k, vals: []sval{g.l2val(), g.l2val(), g.l2val()}[:ncols]})
+		do(&sop{kind: "wt", c: 0, t: l2BaseSec + 2})
+		do(&sop{kind: "del", c: 0, key: k})
+		do(&sop{kind: "version", c: 0})
+		va := w.versions[len(w.versions)-1]
+		do(&sop{kind: "wt", c: 0, t: l2BaseSec + 3})
+		do(&sop{kind: "ins", c: 0, key: k, vals: nullVals(ncols)})
+		do(&sop{kind: "version", c: 0})
+		vb := w.versions[len(w.versions)-1]
+		do(&sop{kind: "changes", c: 0, from: va, to: vb})
+		do(&sop{kind: "changes", c: 0, from: vb, to: va})
+		stats["script_reinserted_null_row"]++
+	}
 	if prof.cacheStory {
 		// A (cache) writes two versions; B (no cache) vacuums the first one's node away; C (cache)
 		// brings the table back to the first content and vacuums: every connection's cache is its
